@@ -1,5 +1,196 @@
+/-
+Model of the provisioning-URL code (otp.go: `generateOTPURL`, `GenerateTOTPURL`, `GenerateHOTPURL`,
+`ParseOTPAuthURL`), as written after the fix: commits (raw label stored in `URL.Path`, range-checked
+`digits` / `period`).
+-/
 import OtpVerif.Basic
-namespace OtpVerif.Model.Url.Run
-def urlg (_ : List String) : String := "bad-op"
-def urlp (_ : List String) : String := "bad-op"
-end OtpVerif.Model.Url.Run
+import OtpVerif.Std.Url
+import OtpVerif.Gen.Defaults
+
+namespace OtpVerif.Model
+open OtpVerif OtpVerif.Std OtpVerif.Std.Url
+
+/-- `otp.URLParam` -/
+structure URLParam where
+  issuer : Bytes
+  account : Bytes
+  secret : Bytes
+  digits : Nat      -- uint8
+  algo : Nat        -- uint8
+  period : Nat      -- uint
+  deriving DecidableEq, Repr
+
+def sOtpauth : Bytes := [111, 116, 112, 97, 117, 116, 104]
+def sTotp : Bytes := [116, 111, 116, 112]
+def sHotp : Bytes := [104, 111, 116, 112]
+def kSecret : Bytes := [115, 101, 99, 114, 101, 116]
+def kIssuer : Bytes := [105, 115, 115, 117, 101, 114]
+def kAlgorithm : Bytes := [97, 108, 103, 111, 114, 105, 116, 104, 109]
+def kDigits : Bytes := [100, 105, 103, 105, 116, 115]
+def kPeriod : Bytes := [112, 101, 114, 105, 111, 100]
+def kCounter : Bytes := [99, 111, 117, 110, 116, 101, 114]
+
+/-- `Algorithm.String()`: the three names as bytes, "" for any other value (map miss); compared with the regenerated `Gen.algoNames` by the driver self-test and the urlg correspondence -/
+def algoNameB (a : Nat) : Bytes :=
+  if a = 0 then [83, 72, 65, 49] else if a = 1 then [83, 72, 65, 50, 53, 54] else if a = 2 then [83, 72, 65, 53, 49, 50] else []
+
+/-- `generateOTPURL(kind, param, extra)` with `extra` = the single type-specific pair (keys come out sorted:
+algorithm < counter < digits < issuer < period < secret) -/
+def generateOTPURL (kind : Bytes) (p : URLParam) (extraKey extraVal : Bytes) : Out URL :=
+  if p.issuer.isEmpty then .err .issuerRequired
+  else if p.account.isEmpty then .err .accountRequired
+  else
+    let digits := if p.digits = 0 then 6 else p.digits
+    if p.secret.isEmpty then .err .secretRequired
+    else
+      let label := p.issuer ++ 58 :: p.account
+      let a := (kAlgorithm, algoNameB p.algo)
+      let d := (kDigits, itoa digits)
+      let i := (kIssuer, p.issuer)
+      let s := (kSecret, p.secret)
+      -- the extra pair at its sorted position
+      let kvs := if extraKey = kCounter then [a, (extraKey, extraVal), d, i, s] else [a, d, i, (extraKey, extraVal), s]
+      .ok { scheme := sOtpauth, host := kind, path := 47 :: label, rawQuery := valuesEncode kvs }
+
+def generateTOTPURL (p : URLParam) : Out URL :=
+  let period := if p.period = 0 then 30 else p.period
+  generateOTPURL sTotp p kPeriod (itoa period)
+
+def generateHOTPURL (p : URLParam) : Out URL := generateOTPURL sHotp p kCounter [48]
+
+/-- `strings.ToUpper(algStr)` matched against the three names (see `Std.toUpperFold`) -/
+def algoOfText (s : Bytes) : Option Nat :=
+  match toUpperFold s with
+  | some u => if u = [83, 72, 65, 49] then some 0 else if u = [83, 72, 65, 50, 53, 54] then some 1
+              else if u = [83, 72, 65, 53, 49, 50] then some 2 else none
+  | none => none
+
+/-- `ParseOTPAuthURL(u)` for a non-nil URL -/
+def parseOTPAuthURL (u : URL) : Out URLParam :=
+  if u.scheme ≠ sOtpauth then .err .badUrl
+  else
+    let t := toLowerFold u.host
+    if t ≠ some sTotp ∧ t ≠ some sHotp then .err .badUrl
+    else
+      let trimmed := match u.path with | 47 :: r => r | p => p          -- TrimPrefix(u.Path, "/")
+      match splitFirst 58 trimmed with
+      | none => .err .badUrl
+      | some (issuer, account) =>
+        let q := parseQuery u.rawQuery
+        let dStr := queryGet q kDigits
+        let aStr := queryGet q kAlgorithm
+        let pStr := queryGet q kPeriod
+        let digits : Option Nat :=
+          if dStr.isEmpty then some 6
+          else match atoi dStr with
+            | some d => if 0 ≤ d ∧ d ≤ 255 then some d.toNat else none
+            | none => none
+        let algo : Option Nat := if aStr.isEmpty then some 0 else algoOfText aStr
+        let period : Option Nat :=
+          if pStr.isEmpty then some 30
+          else match atoi pStr with
+            | some p => if 0 ≤ p then some p.toNat else none
+            | none => none
+        match digits, algo, period with
+        | some d, some a, some p => .ok { issuer := issuer, account := account, secret := queryGet q kSecret, digits := d, algo := a, period := p }
+        | _, _, _ => .err .badUrl
+
+
+namespace Url.Run
+open OtpVerif.Std.Url
+
+def hexVal (c : Char) : Option Nat :=
+  if '0' ≤ c ∧ c ≤ '9' then some (c.toNat - 48)
+  else if 'a' ≤ c ∧ c ≤ 'f' then some (c.toNat - 87)
+  else none
+def unhexList : List Char → Option Bytes
+  | [] => some []
+  | [_] => none
+  | h :: l :: rest =>
+    match hexVal h, hexVal l, unhexList rest with
+    | some a, some b, some r => some ((a * 16 + b).toUInt8 :: r)
+    | _, _, _ => none
+def unhexS (s : String) : Option Bytes := if s = "-" ∨ s = "nil" then some [] else unhexList s.toList
+def hexNib (n : Nat) : Char := if n < 10 then Char.ofNat (48 + n) else Char.ofNat (87 + n)
+def hex (b : Bytes) : String :=
+  if b.isEmpty then "-" else String.ofList (b.foldr (fun x acc => hexNib (x.toNat / 16) :: hexNib (x.toNat % 16) :: acc) [])
+
+def showParam (p : URLParam) : String :=
+  s!"{hex p.issuer} {hex p.account} {hex p.secret} {p.digits} {p.algo} {p.period}"
+
+/-- C16 spec for the round trip: the generated URL has scheme otpauth and the requested type, and parsing its
+text returns issuer, account, secret, code length (0 ↦ 6), hash and – for TOTP – period (0 ↦ 30) -/
+def urlgSpec (kind : String) (p : URLParam) : Option String :=
+  if p.issuer.isEmpty ∨ p.account.isEmpty ∨ p.secret.isEmpty then some "err"
+  else if p.issuer.contains 58 ∨ p.algo ≥ 3 ∨ p.digits > 255 ∨ p.period ≥ 2 ^ 31 + 1 then none
+  else
+    let d := if p.digits = 0 then 6 else p.digits
+    let per := if kind = "totp" then (if p.period = 0 then 30 else p.period) else 30
+    some s!"ok * {hex sOtpauth} {hex (if kind = "totp" then sTotp else sHotp)} {hex p.issuer} {hex p.account} {hex p.secret} {d} {p.algo} {per}"
+
+/-- a plain decimal numeral (optional sign) and its value -/
+def numeralValue (s : Bytes) : Option Int :=
+  let (neg, ds) : Bool × Bytes := match s with
+    | 43 :: r => (false, r)
+    | 45 :: r => (true, r)
+    | _ => (false, s)
+  if ds.isEmpty ∨ !(ds.all isDigitChar) then none
+  else let v : Nat := ds.foldl (fun (n : Nat) c => n * 10 + (c.toNat - 48)) 0
+       some (if neg then -(v : Int) else (v : Int))
+
+/-- C16 spec for parse-only: either the parse fails, or the code length / period it returns are exactly the
+numbers written in the URL (absent ↦ 6 / 30); text that is not a number, or a number that does not fit
+(code length 0..255, period ≥ 0), must fail -/
+def urlpSpec (u : URL) : Option String :=
+  let q := parseQuery u.rawQuery
+  let dS := queryGet q kDigits
+  let pS := queryGet q kPeriod
+  let want (s : Bytes) (dflt : Int) (hi : Option Int) : Option (Option Int) :=   -- none = must fail
+    if s.isEmpty then some (some dflt)
+    else match numeralValue s with
+      | none => none
+      | some v => if v < 0 then none else match hi with
+          | some h => if v > h then none else some (some v)
+          | none => some (some v)
+  match want dS 6 (some 255), want pS 30 none with
+  | some (some d), some (some p) => some s!"if-ok * * * {d} * {p}"
+  | _, _ => some "err *"
+
+/-- `urlg kind issuer account secret digits algo period`: generate, String(), Parse, ParseOTPAuthURL -/
+def urlg (f : List String) : String :=
+  match f with
+  | [kind, iss, acc, sec, d, a, per] =>
+    match unhexS iss, unhexS acc, unhexS sec, d.toNat?, a.toNat?, per.toNat? with
+    | some iss, some acc, some sec, some d, some a, some per =>
+      let p : URLParam := { issuer := iss, account := acc, secret := sec, digits := d, algo := a, period := per }
+      match (if kind = "totp" then generateTOTPURL p else generateHOTPURL p) with
+      | .ok u =>
+        let text := urlString u
+        (match urlParse text with
+          | .ok u2 =>
+            (match parseOTPAuthURL u2 with
+              | .ok q => s!"ok {hex text} {hex u2.scheme} {hex u2.host} {showParam q}"
+              | _ => s!"ok {hex text} err parse-otp")
+          | .err => s!"ok {hex text} err parse-url"
+          | .unsupported => "unsupported") ++ (match urlgSpec kind p with | some sp => "\t" ++ sp | none => "")
+      | _ => "err gen" ++ (match urlgSpec kind p with | some sp => "\t" ++ sp | none => "")
+    | _, _, _, _, _, _ => "bad-op"
+  | _ => "bad-op"
+
+def urlp (f : List String) : String :=
+  match f with
+  | ["NIL"] => "err parse-otp"
+  | [raw] =>
+    match unhexS raw with
+    | some raw =>
+      (match urlParse raw with
+        | .ok u => (match parseOTPAuthURL u with | .ok q => "ok " ++ showParam q | _ => "err parse-otp") ++
+                     (match urlpSpec u with | some sp => "\t" ++ sp | none => "")
+        | .err => "err parse-url"
+        | .unsupported => "unsupported")
+    | none => "bad-op"
+  | _ => "bad-op"
+
+end Url.Run
+
+end OtpVerif.Model
